@@ -737,7 +737,7 @@ impl<K: HashKind> Sut<K> {
         let view = self.model.kv.clone();
         if let Ok(sess) = guard(|| db.begin_session(SessionParams::default())) {
             let keys: Vec<Key> = probe.iter().take(24).copied().collect();
-            let mut sub = Rep::new(rep.case_seed);
+            let mut sub = rep.sub();
             sub.op_index = rep.op_index;
             self.check_proofs(&mut sub, &sess, &view, kv_root::<K>(&view), &keys, ctx, true);
             for f in &sub.findings {
